@@ -257,11 +257,11 @@ ForwardIsDefinition == pc \in {"bwd", "done"} => LikAlg(m, st) = LikDef(m)
 DerivativesAreDefinition ==
   pc \in {"bwd", "done"} => D1LikAlg(m, st) = D1LikDef(m) /\ D2LikAlg(m, st) = D2LikDef(m)
 
-\* uninformative data (every emission numerator 1 over dE = 1): the probability of the data is 1 whatever
-\* the transition matrix, i.e. the path sum is the scale itself
+\* uninformative data (every emission numerator = dE, i.e. probability 1): the probability of the data is 1
+\* whatever the transition matrix, i.e. the path sum is the scale itself, dPi^segments * dP^(len-segments) * dE^len
 UninformativeIsOne ==
   (\A t \in Sites(m), j \in States(m) : m.E[t][j] = m.dE) =>
-     LikDef(m) = ProdF(LAMBDA t : IF IsStart(m, t) THEN m.dPi ELSE m.dP, m.len)
+     LikDef(m) = ProdF(LAMBDA t : (IF IsStart(m, t) THEN m.dPi ELSE m.dP) * m.dE, m.len)
 
 ExponentFactorsOut == PathExps(m, 1, 0) = {LikExp(m)}
 
